@@ -34,6 +34,7 @@ type TierCfg struct {
 	Skip        bool           `json:"skip"`
 	OneShot     bool           `json:"oneshot_first"`
 	CrossCheck  bool           `json:"cross_check"`
+	Race        bool           `json:"race"`
 }
 
 type RunSpec struct {
@@ -170,7 +171,7 @@ func cmdCheck(args []string) int {
 		}
 		cfg := Config{Property: plan.Property, Tier: *tier, Seed: seed, Pkg: r.Pkg, Harness: r.Fn, Workers: *workers,
 			BranchMs: tc.BranchMs, AssertMs: tc.AssertMs, MaxSteps: tc.MaxSteps, MaxPaths: tc.MaxPaths, Ascii7: tc.Ascii7,
-			SitePrefix: plan.SitePrefix, Params: map[string]int{}, SymMapOrder: tc.SymMapOrder, Debug: *debug, Preempt: -1, OneShotFirst: tc.OneShot, CrossCheck: tc.CrossCheck}
+			SitePrefix: plan.SitePrefix, Params: map[string]int{}, SymMapOrder: tc.SymMapOrder, Debug: *debug, Preempt: -1, OneShotFirst: tc.OneShot, CrossCheck: tc.CrossCheck, Race: tc.Race}
 		for k, v := range tc.Params {
 			cfg.Params[k] = v
 		}
